@@ -499,6 +499,43 @@ impl Check for C17 {
                 }
             } else {
                 co.count("unusable_path_run_reported_failure", 1);
+                // The simulated process re-states main()'s `Err -> exit status 1`. Confirm it
+                // against the real binary (a real OS process), for `generate` and for `init`:
+                // a failure must arrive at the caller as a non-zero exit status.
+                let bin = crate::checks::c13::real_bin();
+                if c.setup.entry == Entry::Cli && std::path::Path::new(&bin).exists() {
+                    let snap = w.snapshot();
+                    let cwd = w.cwd(&c.setup);
+                    let gen_argv = w.argv(&c.setup, &c.cfg, false, false);
+                    let mut init_argv: Vec<String> = vec!["cargo".into(), "tauri-typegen".into(), "init".into()];
+                    init_argv.extend(["-p".into(), w.project_arg(&c.setup), "-g".into(), w.output_arg(&c.setup), "-v".into(), c.cfg.mode.clone()]);
+                    for (what, argv) in [("generate", gen_argv), ("init", init_argv)] {
+                        // what the simulated process says for this command line
+                        let sim = env.run(&w, &cwd, c.p_recover.clone(), crate::process::Call::Cli(argv.clone()));
+                        w.restore(&snap);
+                        if sim.res.status.is_ok() {
+                            continue;
+                        }
+                        let real = std::process::Command::new(&bin).args(&argv[1..]).current_dir(&cwd).output();
+                        w.restore(&snap);
+                        co.count("real_binary_exit_status_checks", 1);
+                        match real {
+                            Ok(o) if o.status.success() => co.violate(
+                                format!("C17/exit-status/{}/{}", what, sig_tail),
+                                "1: a failed run reports failure (non-zero exit status)",
+                                format!(
+                                    "obstacle {}: `{}` fails ({}) but the real binary exits 0; stderr: {}",
+                                    c.obstacle,
+                                    argv[1..].join(" "),
+                                    sim.res.status.short(),
+                                    String::from_utf8_lossy(&o.stderr).chars().take(160).collect::<String>()
+                                ),
+                            ),
+                            Ok(_) => {}
+                            Err(e) => co.harness_error = Some(format!("cannot start {}: {}", bin, e)),
+                        }
+                    }
+                }
             }
             if c.obstacle != "name_too_long" {
                 remove();
